@@ -345,7 +345,8 @@ func startUpSystem() *upSystem {
 		return &resolver.DNS{Manager: &endpoint.Manager{
 			Providers:      []endpoint.Provider{endpoint.StaticProvider([]endpoint.Endpoint{e})},
 			InitEndpoint:   e,
-			ErrorThreshold: 1 << 30,
+			// the manager's default error threshold (10): a long run of faults makes it hold an election, which - the
+			// endpoint being the only candidate and its probe passing - keeps the endpoint: still the steady case
 			EndpointTester: func(endpoint.Endpoint) endpoint.Tester {
 				return func(ctx context.Context, testDomain string) error { return nil }
 			},
@@ -511,6 +512,20 @@ func init() {
 			}
 			adv := advSizes[r.Intn(len(advSizes))]
 			payload := r.sockQuery(adv)
+			if i == c.n/3 || (c.tier == "thorough" && r.Chance(1)) {
+				// a RUN of faulty exchanges longer than the manager's error threshold, then the upstream behaves: state
+				// the endpoint layer keeps about consecutive failures must not outlive the outage
+				c.Stat("doh:fault-run")
+				k := 11 + r.Intn(4)
+				for j := 0; j < k; j++ {
+					runDoh(proto, r.sockQuery(adv), dohFault{kind: []string{"status", "empty", "reset"}[r.Intn(3)], arg: 503})
+				}
+				for j := 0; j < 2; j++ {
+					runDoh(proto, r.sockQuery(adv), dohFault{kind: "ok", arg: 40 + r.Intn(200), salt: r.Intn(256)})
+				}
+				lastDoh = nil
+				continue
+			}
 			if lastDoh != nil && r.Chance(35) {
 				// the SAME question again (another ID) right after a faulty exchange, the upstream now healthy: state a
 				// resolver keeps per question (coalescing, negative marks) must not outlive the fault
